@@ -124,7 +124,24 @@ def run(chk, repo, tier):
                        "operands through both class bodies; the stored results are compared with each other (and, in C08, with "
                        "the quotient-ring specification). sgn0 is tabulated over the (parity, is-zero) abstraction of the "
                        "coefficients against RFC 9380 §4.1.")
+    # restate C20
+    from . import C20 as _dep_C20
+    from ..report import SubCheck as _SubCheck
+    chk.rule("C14.R3", "the field classes hold no shared mutable state (class-level or module-level caches, in-place operators): C20's obligations re-stated — otherwise results depend on which class was used first", 50)
+    _sub = _SubCheck()
+    _err = None
+    try:
+        _dep_C20.run(_sub, repo, tier)
+    except AnalysisError as _e:
+        _err = _e
+    for _rule, _construct, _key, _ok, _detail, _where in _sub.obs:
+        if True:
+            chk.ob("C14.R3", _construct, f"[{_rule}] {_key}", _ok, _detail, _where)
+    if _err is not None and all(o[3] for o in _sub.obs):
+        raise _err
     chk.rule("C14.R1", "operator-wise sibling agreement: optimized result ≡ reference result for every shared operator and operand kind", 6 * 12)
+    chk.rule("C14.R4", "__pow__ of the reference and the optimized classes both equal self^n for every n ≥ 0 (loop invariants, "
+                       "C08.R5/R6 re-stated), so they agree for every exponent, not only the small ones tabulated by R1", 12)
     chk.rule("C14.R2", "sgn0 truth tables equal RFC 9380 §4.1 (m = 1, 2, 12; generic loop exhaustively for m = 3, 4)", 8)
     chk.not_decided += ["inv / division by an extension-field element (polynomial Euclid, as C08)",
                         "operators present in only one file (__mod__, sgn0, FQ-scalar arm of the reference FQP.__mul__) have no sibling"]
@@ -153,6 +170,9 @@ def run(chk, repo, tier):
             side = "" if ok else ("optimized: " + do[k][1] if not do[k][0] else "reference: " + dr[k][1])
             chk.ob("C14.R1", f"{oc.qualname} vs {rc.name}", k, ok, side, do[k][2])
     sgn0_obligations(chk, repo, w)
+    # x ** n for arbitrary n: both files' __pow__ are shown to return self^n (C08.R5/R6 re-stated) — hence to agree
+    from .C08 import pow_obligations
+    pow_obligations(chk, repo, w, r5="C14.R4", r6="C14.R4")
 
 
 def sgn0_obligations(chk, repo, w):
